@@ -1190,6 +1190,16 @@ func planFor(prop, tier string) (*plan, error) {
 		{
 			q := &pg.Parallel{Items: []pg.Item{{Kind: "task", Err: true, Instrument: true}, {Kind: "task", Ctx: true, Instrument: true}}, Conc: "expr", Emitters: "1", Instrument: true}
 			ps = append(ps, parProg(q, "INS-PAR"))
+			// a fallback value passed as an identifier that the caller reassigns right after the directive returned
+			// early, while the task owning the fallback is still running and fails later
+			for _, f := range pg.WithPredFallback(pg.Shape("fork"), nil, 1) {
+				if f.Tasks[1].Fallback {
+					g := exprConc(f)
+					p := flowProg(g, "IDENT-late:fork")
+					p.F.IdentArg, p.F.IdentPos, p.F.AssignAfter = "fbv", -1, true
+					ps = append(ps, p)
+				}
+			}
 			// two concurrent directives that were given the same emitter stack plus one emitter of their own
 			f := exprConc(pg.Shape("single"))
 			f.Emitters = "prestack"
@@ -1203,6 +1213,10 @@ func planFor(prop, tier string) (*plan, error) {
 				s6 := base(p, 1)
 				s6.Instances = 2
 				return []genrt.Scenario{s6}
+			}
+			if strings.HasPrefix(p.Fam, "IDENT-late") {
+				sc := withDec(withDec(base(p, 2), []string{pg.TaskID(p.ID, 0)}, probe.Fail), []string{pg.TaskID(p.ID, 1)}, probe.GateFail)
+				return []genrt.Scenario{sc, base(p, 2)}
 			}
 			sc := base(p, 2)
 			sc.COE = true
